@@ -279,15 +279,24 @@ Inductive reachable (lay : option (bytes -> path)) : tree -> cache -> Prop :=
 | R_open t : reachable lay t []                                             (* fs.rs:84, 103: a new handle *)
 | R_get t c i : reachable lay t c -> StepOk lay t ->
     reachable lay t (snd (get_inventory lay c t i))
+| R_find t c i : reachable lay t c -> StepOk lay t ->                         (* l.126-156: the root path lookup of *)
+    reachable lay t (snd (find_root lay c t i))                               (* write_new_object, validate_object, ... *)
 | R_purge t c i : reachable lay t c -> StepOk lay t ->
     reachable lay (snd (fst (purge_object lay c t i))) (snd (purge_object lay c t i))
 | R_write t t' c : reachable lay t c -> Keeps t t' -> reachable lay t' c.
 
+Lemma find_root_cache_nolayout c t i : snd (find_root None c t i) = snd (get_inventory None c t i).
+Proof.
+  unfold find_root, get_inventory. destruct (cache_get c i); [reflexivity|].
+  destruct (scan_for_inventory t i); reflexivity.
+Qed.
+
 Lemma reachable_sound t c : reachable None t c -> cache_sound c t = true.
 Proof.
-  induction 1 as [t|t c i _ IH G|t c i _ IH G|t t' c _ IH Kp].
+  induction 1 as [t|t c i _ IH G|t c i _ IH G|t c i _ IH G|t t' c _ IH Kp].
   - reflexivity.
   - apply cache_sound_get_step; assumption.
+  - rewrite find_root_cache_nolayout. apply cache_sound_get_step; assumption.
   - cbn [StepOk] in G. destruct (purge_object_nolayout c t i G IH) as [A B].
     destruct (in_dec (list_eq_dec Ascii.ascii_dec) i (committed_ids t)) as [H|H].
     + destruct (A H) as (p & R & ->). cbn [fst snd]. apply (cache_sound_after_purge t i p G R c IH).
@@ -297,10 +306,11 @@ Qed.
 
 Lemma reachable_layout m t c : reachable (Some m) t c -> cache_of_layout m c = true.
 Proof.
-  induction 1 as [t|t c i _ IH _|t c i _ IH _|t t' c _ IH _].
+  induction 1 as [t|t c i _ IH _|t c i _ IH _|t c i _ IH _|t t' c _ IH _].
   - reflexivity.
   - unfold get_inventory. destruct (cache_get c i); [exact IH|].
     cbn [snd cache_of_layout forallb fst]. now rewrite path_eqb_refl.
+  - apply (find_root_layout m c t i IH).
   - destruct (find_root_layout m c t i IH) as [_ E]. unfold purge_object.
     destruct (find_root (Some m) c t i) as [[p|] c1]; cbn [snd] in *; [|exact E].
     apply cache_of_layout_remove, E.
